@@ -218,7 +218,7 @@ impl Property for C01 {
         C01
     }
     fn n_cases(&self, tier: Tier) -> u64 {
-        tier.pick(60_000, 2_000_000)
+        tier.pick(150_000, 2_000_000)
     }
     fn chunk(&self, _tier: Tier) -> u64 {
         250
